@@ -24,11 +24,11 @@ def run(s):
     K.resend_after_reorder(s, 4 if s.tier == 'quick' else 5)
     if s.tier == 'quick':
         K.story_grid(s, 4, layouts=('none', 'between', 'everywhere'), kmax=3, full=False)
-        K.story_grid(s, 3, layouts=('before',), pretties=(False,), kmax=2, full=False, names=K.HOSTILE_NAMES)
+        K.story_grid(s, 4, layouts=('before',), pretties=(False,), kmax=2, full=False, names=K.HOSTILE_NAMES)
         K.fuzz(s, 240, K.kind_weights(story=1.0, item=0.15, other=0.2), steps=(5, 25))
     else:
         K.story_grid(s, 5, kmax=3, full=True)
-        K.story_grid(s, 5, layouts=('before', 'between'), kmax=2, full=True, names=K.HOSTILE_NAMES)
+        K.story_grid(s, 6, layouts=('before', 'between'), kmax=2, full=False, names=K.HOSTILE_NAMES)
         K.fuzz(s, 6000, K.kind_weights(story=1.0, item=0.15, other=0.2), steps=(5, 40))
 
 
